@@ -161,7 +161,7 @@ def run(ctx):
     if dup:
         violations.append({"signature": {"cause": "duplicate-name-from-generator"},
                            "what": "real NameGenerator handed out the same name twice", "payload": dup[0]})
-    if bad and not violations:
+    if bad:
         path = common.write_replay("C18", {"property": "C18", "kind": "correspondence-broken",
                                            "correspondence": "Scfg.Model.NameGen vs NameGenerator", **bad[0]})
         broken.append({"signature": {"kind": "correspondence"}, "replay": path, "nfi": True, "what": "NameGenerator model mismatch"})
